@@ -86,6 +86,11 @@ Definition init_state (pf : string -> option string) js (t : term) : fstate :=
 Definition sop_of (t : term) : sop :=
   if has_prefix "save" (gs (gn t 0)) then OpSave (values_of (gn t 1)) else OpDelete (gs (gn t 1)).
 Definition io_ok_of (t : term) : bool := negb (has_suffix "!" (gs (gn t 0))).
+(* "save!" / "delete!": the write fails; "save?" / "delete?" / "menu?": the read of the file fails *)
+Definition fault_of (t : term) : fault :=
+  if has_suffix "!" (gs (gn t 0)) then WriteFault
+  else if has_suffix "?" (gs (gn t 0)) then ReadFault else NoFault.
+Definition faulted (t : term) : bool := match fault_of t with NoFault => false | _ => true end.
 
 Definition of_menu (m : list (string * values * bool * bool)) : term :=
   TL (map (fun e => match e with (n, q, cur, user) => TL [TS n; of_values q; of_bool cur; of_bool user; of_bool true] end) m).
@@ -94,10 +99,10 @@ Fixpoint run_seq pf js (cur : config) (st : fstate) (ops : list term) : list ter
   match ops with
   | [] => []
   | o :: r =>
-      if String.eqb (gs (gn o 0)) "menu" then
-        TL [TZ 0; of_menu (config_menu flds cur st (values_of (gn o 1)))] :: run_seq pf js cur st r
+      if has_prefix "menu" (gs (gn o 0)) then
+        TL [TZ 0; of_menu (config_menu_f flds cur st (values_of (gn o 1)) (fault_of o))] :: run_seq pf js cur st r
       else
-        let '(code, st') := run_sop_io pf js flds cur st (sop_of o) (io_ok_of o) in
+        let '(code, st') := run_sop_f pf js flds cur st (sop_of o) (fault_of o) in
         TL [TZ code; of_state cur st'; TZ 1] :: run_seq pf js cur st' r
   end.
 
@@ -219,15 +224,15 @@ Fixpoint spec_seq pf (cur : config) (prev : term) (ops obs : list term) : bool :
   | [], [] => true
   | o :: r, b :: rb =>
       let kind := gs (gn o 0) in
-      if String.eqb kind "menu" then
-        menu_ok flds (values_of (gn o 1)) (state_settings prev)
+      if has_prefix "menu" kind then
+        menu_ok flds (values_of (gn o 1)) (if has_suffix "?" kind then None else state_settings prev)
                 (map (fun e => (gs (gn e 0), values_of (gn e 1), gb (gn e 2), gb (gn e 3))) (gl (gn b 1)))
         && spec_seq pf cur prev r rb
       else
         let code := gz (gn b 0) in
         let after := gn b 1 in
         gb (gn b 2)                                    (* what the process reports is what the file holds *)
-        && (io_ok_of o || negb (code =? 0))          (* a write that failed is reported *)
+        && (negb (faulted o) || negb (code =? 0))     (* a failed write / a failed read is reported *)
         && (if code =? 0 then
            match state_settings prev, state_settings after with
            | Some before, Some aft =>
